@@ -1332,6 +1332,45 @@ func (lg *ledger) byConstruction(p pred, at *ssa.BasicBlock, ctx *proofCtx) stri
 						return "the last parameter of a variadic function (IsVariadic() is true here) is a slice type"
 					}
 				}
+				// the function type is a parameter of a helper: every call site is under IsVariadic() of the argument
+				if prm, isP := throughCell(recv).(*ssa.Parameter); isP && prm.Parent() == lg.fn {
+					idx := -1
+					for i, q := range lg.fn.Params {
+						if q == prm {
+							idx = i
+						}
+					}
+					sites := lg.w.staticCallSites(lg.fn)
+					okAll := idx >= 0 && len(sites) > 0
+					for _, st := range sites {
+						if !okAll || idx >= len(st.Common().Args) {
+							okAll = false
+							break
+						}
+						l2 := newLedger(lg.w, st.Parent())
+						found := false
+						for _, f := range dominatingFacts(st.Block()) {
+							cond, truth := f.cond, f.truth
+							for {
+								u, ok := cond.(*ssa.UnOp)
+								if !ok || u.Op != token.NOT {
+									break
+								}
+								cond, truth = u.X, !truth
+							}
+							c2 := throughCell(cond)
+							if r2, _, ok := reflectTypeInvoke(c2, "IsVariadic"); ok && truth && l2.key(r2) == l2.key(st.Common().Args[idx]) {
+								found = true
+							}
+						}
+						if !found {
+							okAll = false
+						}
+					}
+					if okAll {
+						return "the last parameter of a variadic function: every call site of this helper is under IsVariadic() of the type it passes"
+					}
+				}
 			}
 		}
 		// Type(v).Kind() == Kind(v)
@@ -2076,15 +2115,32 @@ func (lg *ledger) callerFacts() []diffC {
 		l2.depth = lg.depth + 1
 		type rep struct{ from, to string }
 		var reps []rep
+		// an int argument base+k: the term `base` of the caller is the parameter minus k
+		exact := map[string]struct {
+			to  string
+			off int64
+		}{}
 		for i, prm := range lg.fn.Params {
 			ak := l2.key(args[i])
 			if ak == "" || strings.HasPrefix(ak, "const(") || ak == "nil" {
 				continue
 			}
 			reps = append(reps, rep{ak, lg.key(prm)})
+			if isIntType(prm.Type()) {
+				if ab, ao := l2.term(args[i]); ab != "0" {
+					exact[ab] = struct {
+						to  string
+						off int64
+					}{lg.key(prm), ao}
+				}
+			}
 		}
 		sort.Slice(reps, func(i, j int) bool { return len(reps[i].from) > len(reps[j].from) })
-		tr := func(s string) (string, bool) {
+		// tr: the term in the callee's vocabulary, and the constant d with  callerTerm = calleeTerm - d
+		tr := func(s string) (string, int64, bool) {
+			if e, ok := exact[s]; ok {
+				return e.to, e.off, true
+			}
 			hit := false
 			for _, r := range reps {
 				if strings.Contains(s, r.from) {
@@ -2092,19 +2148,73 @@ func (lg *ledger) callerFacts() []diffC {
 					hit = true
 				}
 			}
-			return s, hit
+			return s, 0, hit
 		}
 		here := map[key]int64{}
-		for _, f := range l2.subFacts(l2.boundFacts(st.Block())) {
-			x, hx := tr(f.x)
-			y, hy := tr(f.y)
-			// both terms must be about parameters (or the constant origin)
-			if !(hx || f.x == "0") || !(hy || f.y == "0") || (!hx && !hy) {
+		// the closure of what the caller knows, between the terms that are about the arguments (and 0)
+		cs := l2.subFacts(l2.boundFacts(st.Block()))
+		idx := map[string]int{}
+		var names []string
+		id := func(t string) int {
+			if i, ok := idx[t]; ok {
+				return i
+			}
+			idx[t] = len(names)
+			names = append(names, t)
+			return idx[t]
+		}
+		id("0")
+		for _, f := range cs {
+			id(f.x)
+			id(f.y)
+		}
+		n := len(names)
+		if n > 80 {
+			return nil
+		}
+		const inf = int64(1) << 60
+		d := make([][]int64, n)
+		for i := range d {
+			d[i] = make([]int64, n)
+			for j := range d[i] {
+				if i != j {
+					d[i][j] = inf
+				}
+			}
+		}
+		for _, f := range cs {
+			if i, j := idx[f.x], idx[f.y]; f.c < d[i][j] {
+				d[i][j] = f.c
+			}
+		}
+		for m := 0; m < n; m++ {
+			for i := 0; i < n; i++ {
+				for j := 0; j < n; j++ {
+					if d[i][m] < inf && d[m][j] < inf && d[i][m]+d[m][j] < d[i][j] {
+						d[i][j] = d[i][m] + d[m][j]
+					}
+				}
+			}
+		}
+		for i := 0; i < n; i++ {
+			x, dx, hx := tr(names[i])
+			if !hx && names[i] != "0" {
 				continue
 			}
-			k := key{x, y}
-			if c, ok := here[k]; !ok || f.c < c {
-				here[k] = f.c
+			for j := 0; j < n; j++ {
+				if i == j || d[i][j] >= inf {
+					continue
+				}
+				y, dy, hy := tr(names[j])
+				if (!hy && names[j] != "0") || (!hx && !hy) {
+					continue
+				}
+				// (x - dx) - (y - dy) <= d  =>  x - y <= d + dx - dy
+				c2 := d[i][j] + dx - dy
+				k := key{x, y}
+				if c, ok := here[k]; !ok || c2 < c {
+					here[k] = c2
+				}
 			}
 		}
 		if si == 0 {
@@ -2224,8 +2334,21 @@ func elementOfReflectSlice(v ssa.Value) string {
 	if !ok {
 		return ""
 	}
+	src := ia.X
+	// a slice handed to a single-use helper is the slice its one call site passes
+	for i := 0; i < 3; i++ {
+		prm, isP := src.(*ssa.Parameter)
+		if !isP {
+			break
+		}
+		a := singleSiteArg(prm)
+		if a == nil {
+			break
+		}
+		src = a
+	}
 	for _, n := range []string{"Call", "MapKeys"} {
-		if _, _, ok := reflectValueCall(ia.X, n); ok {
+		if _, _, ok := reflectValueCall(src, n); ok {
 			return "reflect.Value." + n
 		}
 	}
